@@ -1,7 +1,7 @@
 """C03 — topics are isolated and senders do not hear themselves"""
 from relaycommon import RelayMode
 from lagcommon import LagMode, LAG_RULE
-from hubcommon import HubMode, PathMode
+from hubcommon import HubMode, GenHubMode, PathMode
 
 RULE = ("hub mode: event histories (register with topic/booking/scopes/buffer 1..8, inbound from members and non-members, drain at "
         "arbitrary cut points, unregister incl. repeated/unknown) over 1-3 topics out of {a, a/b, ab, a%2Fb, stats}, driven through "
@@ -22,4 +22,10 @@ RULE = RULE + LAG_RULE
 
 
 def modes(tier):
-    return [HubMode("C03"), PathMode(), LagMode("C03"), RelayMode("C03")]   # relay: topics differing only in case / by one character, real sockets
+    return [HubMode("C03"), GenHubMode("C03"), PathMode(), LagMode("C03"), RelayMode("C03")]   # relay: topics differing only in case / by one character, real sockets
+
+# the hub's event loop as translated from the current source (Relay/Tie/Hub.lean)
+from tiecommon import TIE_HUB, TIE_HUB_NOTE, TIE_HUB_ASSUMPTION
+THEOREMS = THEOREMS + TIE_HUB
+RULE = TIE_HUB_NOTE + RULE
+ASSUMPTIONS = ASSUMPTIONS + [TIE_HUB_ASSUMPTION]
